@@ -130,6 +130,23 @@ type connState struct {
 	r io.WriteCloser
 }
 
+// maxPayloadSize returns the largest payload an Rread or Rreaddir can carry
+// without exceeding the negotiated message size.
+func (cs *connState) maxPayloadSize() uint32 {
+	msize := atomic.LoadUint32(&cs.messageSize)
+	if msize == 0 {
+		// Default or not yet negotiated.
+		msize = maximumLength
+	}
+
+	// size[4] type[1] tag[2] count[4]
+	const overhead = headerLength + 4
+	if msize < overhead {
+		return 0
+	}
+	return msize - overhead
+}
+
 // xattrOp is the xattr related operations, walk or create.
 type xattrOp int
 
